@@ -524,7 +524,9 @@ def part2(ctx, env, history=None):
         if r < 0.4: return ['UPDATE I SET q = ? WHERE id = ?', (rng.choice([1, 2, 3, None]), rng.choice([1, 2, 3, 4]))]
         if r < 0.55: return ['INSERT OR IGNORE INTO Q_T (%s, %s) VALUES (?, ?)' % (qc, tc), (rng.choice([1, 2, 3]), rng.choice([1, 2, 3]))]
         if r < 0.7: return ['DELETE FROM Q_T WHERE %s = ? AND %s = ?' % (qc, tc), (rng.choice([1, 2, 3]), rng.choice([1, 2, 3]))]
-        if r < 0.8: return ['UPDATE O SET q = NULL WHERE id = ?', (rng.choice([1, 2]),)]
+        if r < 0.74: return ['UPDATE O SET q = NULL WHERE id = ?', (rng.choice([1, 2]),)]
+        if r < 0.77: return ['DELETE FROM O WHERE id = ?', (rng.choice([1, 2, 3, 7, 8]),)]
+        if r < 0.8: return ['INSERT OR IGNORE INTO O (id, q, v) VALUES (?, ?, 9)', (rng.choice([3, 4]), rng.choice([1, 2, 3]))]
         if r < 0.9: return ['INSERT OR IGNORE INTO I (id, q, v) VALUES (?, ?, 9)', (rng.choice([5, 6]), rng.choice([1, 2, 3]))]
         return ['DELETE FROM I WHERE id = ?', (rng.choice([1, 2, 3, 4, 5, 6]),)]
     def observations(qs, ts):
@@ -538,6 +540,8 @@ def part2(ctx, env, history=None):
             ob['Q%d.tags' % q] = lambda q=q: sorted(t.id for t in qs[q].tags)
             ob['Q%d.len(tags)' % q] = lambda q=q: len(qs[q].tags)
             ob['Q%d.one' % q] = lambda q=q: (qs[q].one.id if qs[q].one is not None else None)
+        for i in (1, 2, 3):
+            ob['I%d.q' % i] = lambda i=i: (lambda x: x.q.id if x.q is not None else None)(I[i])
         for t in (1, 2, 3):
             ob['T%d.qs' % t] = lambda t=t: sorted(q.id for q in ts[t].qs)
         return ob
@@ -545,14 +549,25 @@ def part2(ctx, env, history=None):
                lambda: I.select_by_sql('SELECT * FROM I'), lambda: O.select_by_sql('SELECT * FROM O'), lambda: Q.select_by_sql('SELECT * FROM Q'),
                # prefetching re-queries collections, also the fully loaded ones (Set.prefetch_load_all)
                lambda: select(q for q in Q).prefetch(Q.tags)[:], lambda: select(q for q in Q).prefetch(Q.items)[:],
-               lambda: select(t for t in T).prefetch(T.qs)[:], lambda: select(q for q in Q).prefetch(Q.one, T, I)[:]]
+               lambda: select(t for t in T).prefetch(T.qs)[:], lambda: select(q for q in Q).prefetch(Q.one, T, I)[:],
+               # only the NEW rows (the previous partner / item is not fetched again)
+               lambda: O.select_by_sql('SELECT * FROM O WHERE id >= 3'), lambda: select(o for o in O if o.id >= 3)[:],
+               lambda: I.select_by_sql('SELECT * FROM I WHERE id >= 5'), lambda: O.select_by_sql('SELECT * FROM O WHERE id = 2')]
     def gen_script():
         names = sorted(observations({}, {}))
         hot = rng.sample(names, rng.choice([2, 3, 4]))
+        own = rng.random() < 0.5
         script = []
         for stepno in range(rng.choice([4, 6, 8, 10])):
             if rng.random() < 0.5:
                 sql, args = wop(); script.append(['w', sql, list(args)])
+            r = rng.random()
+            if own and r < 0.3:
+                rr = rng.random()
+                if rr < 0.45: script.append(['set', rng.choice(['O', 'O', 'I']), rng.choice([1, 2, 3]), rng.randrange(50, 60)])
+                elif rr < 0.8: script.append(['commit'])
+                else: script.append(['create', rng.choice(['O', 'I']), rng.choice([7, 8]), rng.choice([0, 1, 2, 3])])
+                continue
             if rng.random() < 0.35: script.append(['reload', rng.randrange(len(reloads))])
             else: script.append(['read', rng.choice(hot if rng.random() < 0.8 else names)])
         return script
@@ -560,14 +575,41 @@ def part2(ctx, env, history=None):
     def run_script(script, label):
         """executes a history of writer statements / reloads / reads; the oracle runs on the values read"""
         reset()
-        log = []; first = {}
+        log = []; first = {}; first_at = {}
         try:
             with db_session:
                 qs = {q: Q[q] for q in (1, 2, 3)}; ts = {t: T[t] for t in (1, 2, 3)}
                 ob = observations(qs, ts)
+                cache = core.local.db2cache[env.db]
                 for act in script:
                     if act[0] == 'w':
+                        if cache.in_transaction: log.append(['w-skipped', act[1], list(act[2])]); continue   # the reader holds the SQLite lock
                         w.execute(act[1], act[2]); log.append(['w', act[1], list(act[2])])
+                    elif act[0] in ('set', 'create', 'commit'):
+                        # the session's OWN changes: they give the objects the statuses modified / updated / inserted
+                        try:
+                            if act[0] == 'commit': commit()
+                            elif act[0] == 'set':
+                                ent = {'O': O, 'I': I, 'Q': Q}[act[1]]
+                                obj = cache.indexes[ent._pk_attrs_].get(act[2])
+                                if obj is None: log.append(act + ['not-loaded']); continue
+                                if act[1] == 'Q': obj.name = 'own%d' % act[3]
+                                else: obj.v = act[3]
+                            else:
+                                ent = {'O': O, 'I': I}[act[1]]
+                                ent(id=act[2], q=(Q[act[3]] if act[3] else None), v=7)
+                            log.append(act + ['ok'])
+                            # the session's own change is a legitimate new value: forget what was observed of the things it touches
+                            if act[0] == 'create' and act[3]:
+                                for k in [k for k in first if k[1] in ('Q%d.items' % act[3], 'Q%d.one' % act[3], '%s%d.q' % (act[1], act[2]))]: first.pop(k)
+                            elif act[0] == 'set' and act[1] == 'Q':
+                                first.pop(('val', 'Q%d.name' % act[2]), None)
+                        except (core.UnrepeatableReadError, core.OptimisticCheckError) as e:
+                            log.append(act + [type(e).__name__])
+                            if not cache.is_alive: break
+                        except Exception as e:
+                            log.append(act + ['error:' + type(e).__name__])
+                            if not cache.is_alive: break
                     elif act[0] == 'reload':
                         k = act[1]
                         try:
@@ -593,18 +635,28 @@ def part2(ctx, env, history=None):
                         else: v_cmp, key = v, ('val', base)
                         if isinstance(v, list): first.setdefault(('len', base), len(v))
                         if key in first and first[key] != v_cmp:
-                            ctx.violation('a repeated read in one session returned a different value without an error', {'history': log},
-                                          observed=v, expected=first[key], key='part2:changed:' + name.split('.', 1)[1])
+                            # an UnrepeatableReadError that was raised (and caught by the application) since the observation does not
+                            # license a later silent change, but it is a different finding than a change without any error
+                            after_error = any(isinstance(e[-1], str) and e[-1] == 'UnrepeatableReadError' for e in log[first_at[key]:])
+                            ctx.violation('a repeated read in one session returned a different value without an error'
+                                          + (' (an UnrepeatableReadError had been raised and caught in between; the read itself was silent)' if after_error else ''),
+                                          {'history': log}, observed=v, expected=first[key],
+                                          key='part2:changed%s:%s' % ('-after-error' if after_error else '', name.split('.', 1)[1]))
+                        if key not in first: first_at[key] = len(log) - 1
                         first.setdefault(key, v_cmp)
-                rollback()
+                if cache.is_alive: rollback()
+        except (core.UnrepeatableReadError, core.OptimisticCheckError):
+            pass          # raised by the flush at the end of the session: loud
         except Exception:
             ctx.divergence('part 2: the reader session crashed', {'history': log}, impl=traceback.format_exc()[-500:])
         ctx.case({'history': log}, nontrivial=len(log) > 3, kind=label)
         for e in log:
-            if e[0] != 'w': ctx.count('part2:%s:%s' % (e[0], e[2] if isinstance(e[2], str) and (e[2].startswith('Unrep') or e[2].startswith('error')) else 'ok'))
+            if e[0] in ('set', 'create', 'commit', 'w-skipped'): ctx.count('part2:%s:%s' % (e[0], e[-1] if e[0] != 'w-skipped' else 'locked'))
+        for e in log:
+            if e[0] in ('read', 'reload'): ctx.count('part2:%s:%s' % (e[0], e[2] if isinstance(e[2], str) and (e[2].startswith('Unrep') or e[2].startswith('error')) else 'ok'))
 
     if history is not None:
-        run_script([a[:3] if a[0] == 'w' else a[:2] for a in history], 'part2-replay')
+        run_script([a[:3] if a[0] in ('w', 'w-skipped') else a[:2] if a[0] in ('reload', 'read') else a[:-1] for a in history], 'part2-replay')
     # fixed histories: the column-less side of the one-to-one pair served from the identity map (regression of the defect found
     # by the thorough tier), both directions of the foreign change, every reload of the other side
     for rl in (2, 5):
@@ -612,6 +664,24 @@ def part2(ctx, env, history=None):
         run_script([['reload', rl], ['read', 'Q1.one'], ['w', 'UPDATE O SET q = ? WHERE id = ?', [2, 1]], ['reload', rl], ['read', 'Q1.one'], ['read', 'Q2.one']], 'part2-fixed')
         run_script([['read', 'Q2.one'], ['w', 'UPDATE O SET q = ? WHERE id = ?', [2, 2]], ['reload', rl], ['read', 'Q2.one']], 'part2-fixed')
         run_script([['read', 'Q1.one'], ['w', 'UPDATE O SET q = NULL WHERE id = ?', [1]], ['reload', rl], ['read', 'Q1.one']], 'part2-fixed')
+    # the objects involved in every status the session can give them (loaded, modified, updated after commit(), inserted),
+    # a foreign change that REPLACES the partner / moves the item, a re-fetch of the NEW row only, the same read again
+    DEL1 = ['w', 'DELETE FROM O WHERE id = ?', [1]]; NEW3 = ['w', 'INSERT OR IGNORE INTO O (id, q, v) VALUES (?, ?, 9)', [3, 1]]
+    UNL1 = ['w', 'UPDATE O SET q = NULL WHERE id = ?', [1]]; LNK2 = ['w', 'UPDATE O SET q = ? WHERE id = ?', [1, 2]]
+    for status_steps in ([], [['set', 'O', 1, 51]], [['set', 'O', 1, 51], ['commit']], [['set', 'Q', 1, 5], ['commit']]):
+        for change in ([DEL1, NEW3], [UNL1, LNK2], [UNL1, NEW3]):
+            for rl in (11, 12, 14, 2, 5):
+                run_script([['reload', 5], ['read', 'Q1.one']] + status_steps + change + [['reload', rl], ['read', 'Q1.one']], 'part2-fixed')
+                run_script([['read', 'Q1.one']] + status_steps + change + [['reload', rl], ['read', 'Q1.one']], 'part2-fixed')
+    # a partner / item the session itself INSERTED
+    for rl in (11, 12, 2):
+        run_script([['read', 'Q2.one'], ['create', 'O', 7, 2], ['commit'], ['read', 'Q2.one'], ['w', 'DELETE FROM O WHERE id = ?', [7]],
+                    ['w', 'INSERT OR IGNORE INTO O (id, q, v) VALUES (?, ?, 9)', [3, 2]], ['reload', rl], ['read', 'Q2.one']], 'part2-fixed')
+    for status_steps in ([], [['set', 'I', 2, 51]], [['set', 'I', 2, 51], ['commit']]):
+        for ob_name in ('Q1.items', 'Q1.len(items)', 'I2.q'):
+            for rl in (0, 4, 8):
+                run_script([['reload', 0], ['read', ob_name]] + status_steps + [['w', 'UPDATE I SET q = ? WHERE id = ?', [2, 2]], ['reload', rl], ['read', ob_name]], 'part2-fixed')
+    run_script([['read', 'Q1.items'], ['create', 'I', 7, 1], ['commit'], ['read', 'Q1.items'], ['w', 'UPDATE I SET q = ? WHERE id = ?', [2, 7]], ['reload', 0], ['read', 'Q1.items']], 'part2-fixed')
     # prefetch of a fully loaded collection after a foreign link change (many-to-many both sides, one-to-many)
     for ob_name, wsql, wargs, rl in (('Q1.tags', 'INSERT OR IGNORE INTO Q_T (%s, %s) VALUES (?, ?)' % (qc, tc), [1, 3], 7),
                                      ('Q1.len(tags)', 'INSERT OR IGNORE INTO Q_T (%s, %s) VALUES (?, ?)' % (qc, tc), [1, 3], 7),
